@@ -118,6 +118,11 @@ class C16(Prop):
                     if kind in ('shallow', 'deep') and rnd.random() < 0.5:
                         js['memory'] = pick()
                     op = [k, js, None if rnd.random() < 0.05 else pick()]
+                    if js['memory'] is not None and op[2] in names and rnd.random() < 0.5:
+                        # a memory that fits: a state that already is a child of the chosen parent
+                        sibs = list(sc2.children_for(op[2]))
+                        if sibs:
+                            js['memory'] = rnd.choice(sibs)
                 elif k == 'remove_state':
                     n = pick()
                     if n == sc2.root and rnd.random() < 0.9:
@@ -248,9 +253,21 @@ class C16(Prop):
                 if t['target'] is not None and t['target'] not in names:
                     res.violations.append('op %d %s: transition to unknown %s' % (i, k, t['target']))
             if k == 'add_state':
+                # exactly when validate() still passes (Lean: C16.validate_after_add_iff): a compound state arrives
+                # without `initial`, a history state without `memory` or with one that already is another child of
+                # the same parent
                 js = op[1]
-                if (js.get('initial') and js['kind'] == 'compound') or (js.get('memory') and js['kind'] in ('shallow', 'deep')):
+                fits = True
+                if js['kind'] == 'compound' and js.get('initial'):
+                    fits = False
+                if js['kind'] in ('shallow', 'deep') and js.get('memory') is not None:
+                    mem = js['memory']
+                    fits = (mem != js['name'] and op[2] is not None and mem in pnames and pnames[mem]['parent'] == op[2])
+                if not fits:
                     dangling_ok = False
+                    if prev['valid'] and cur['valid']:
+                        res.violations.append('op %d add_state%s: validate() passes although the new state does not fit '
+                                              '(initial / memory that cannot be a child yet)' % (i, op[1:]))
             if dangling_ok and prev['valid'] and not cur['valid']:
                 res.violations.append('op %d %s%s: validate() no longer passes' % (i, k, op[1:]))
             # documented effects
